@@ -43,9 +43,12 @@ func devMain(args []string) int {
 		if *feat == "lib" {
 			cats = fam.LibFamily(*seed, *n, []cat.Opts{{Recover: true}, {Recover: false}}, true)
 		}
-		st, err := coverStage(*feat, cats, Bounds{MaxInv: *inv, MaxFaults: *faults, FaultKinds: []string{"err", "panic"}}, 10*time.Minute, *show)
+		st, err := coverStage(*feat, cats, Bounds{MaxInv: *inv, MaxFaults: *faults, FaultKinds: []string{"err", "panic"}}, 10*time.Minute, *show, os.Getenv("VERIF_COVERAGE") != "")
 		if st != nil {
 			fmt.Println(st.summary())
+			if st.TLC.Coverage != nil {
+				fmt.Println("coverage:", st.TLC.Coverage)
+			}
 			for _, e := range st.TLC.Errors {
 				fmt.Println("TLC:", e)
 			}
